@@ -2,16 +2,23 @@
 """adopt_mutant.py <PID> <i> "<what it needs to manifest>" [extra property ids to run]
 Dev tool: confirm a sub-agent's seeded change in its scratch worktree, keep it under seeded/, run the checks on it."""
 import sys, subprocess, os, json, shutil, re
+"""options (environment): ADOPT_WT=<worktree> ADOPT_ID=<number under seeded/> ADOPT_NOEVAL=1 (confirm and copy only);
+needs == "auto" takes the section "What is needed for it to manifest" of the demonstration's write-up"""
 pid, i, needs = sys.argv[1], sys.argv[2], sys.argv[3]; extra = sys.argv[4:]
 ROOT = os.path.dirname(os.path.dirname(os.path.abspath(__file__)))
-wt = "/tmp/wt-" + pid
+wt = os.environ.get("ADOPT_WT", "/tmp/wt-" + pid)
+sid = os.environ.get("ADOPT_ID", i)
+if needs == "auto":
+    md = open(os.path.join(wt, "mutants", "demo%s.md" % i)).read()
+    m0 = re.search(r"#+\s*What is needed[^\n]*\n(.*?)(\n#+\s|\Z)", md, re.S | re.I)
+    needs = re.sub(r"\s+", " ", (m0.group(1) if m0 else md[:600]).strip())[:900]
 v = subprocess.run([os.path.join(ROOT, "bin/verify_mutant.sh"), wt, i], capture_output=True, text=True).stdout
 print(v[-1200:])
 m = re.search(r"demo-exit-with-patch=(\S+) demo-exit-without=(\S+)", v)
 tests = re.search(r"tests-with-patch: (.*)", v).group(1)
 ok_tests = "FAILED" not in tests and "test result: ok" in tests
 confirmed = bool(m) and m.group(1) not in ("0", "NO-DEMO") and m.group(2) == "0" and ok_tests
-dest = os.path.join(ROOT, "seeded", "%s-%s" % (pid, i))
+dest = os.path.join(ROOT, "seeded", "%s-%s" % (pid, sid))
 if not confirmed:
     print("NOT CONFIRMED:", pid, i, tests, m.groups() if m else None); sys.exit(1)
 os.makedirs(dest, exist_ok=True)
@@ -20,10 +27,13 @@ shutil.copy(os.path.join(wt, "mutants", "demo%s.md" % i), os.path.join(dest, "de
 d = os.path.join(wt, "mutants", "demo%s" % i)
 if os.path.isdir(d):
     shutil.rmtree(os.path.join(dest, "demo"), ignore_errors=True)
-    shutil.copytree(d, os.path.join(dest, "demo"), ignore=shutil.ignore_patterns("target", "*.lock", "out*", "work*"))
-r = subprocess.run([os.path.join(ROOT, "bin/eval_mutant.py"), os.path.join(dest, "patch.diff"), pid] + extra, capture_output=True, text=True)
-print(r.stdout[-1500:], r.stderr[-300:])
-res = json.loads(r.stdout.strip().split("\n")[-1])
+    shutil.copytree(d, os.path.join(dest, "demo"), ignore=shutil.ignore_patterns("target", "*.lock", "out*", "work*", "*.log"))
+if os.environ.get("ADOPT_NOEVAL"):
+    res = {k: dict(rc=None, lines=[], why=["not evaluated yet"], s=0) for k in [pid] + extra}
+else:
+    r = subprocess.run([os.path.join(ROOT, "bin/eval_mutant.py"), os.path.join(dest, "patch.diff"), pid] + extra, capture_output=True, text=True)
+    print(r.stdout[-1500:], r.stderr[-300:])
+    res = json.loads(r.stdout.strip().split("\n")[-1])
 meta = dict(property=pid, needs_to_manifest=needs,
             confirmed=dict(existing_tests_with_patch=tests.strip(), demo_exit_with_patch=m.group(1), demo_exit_without_patch=m.group(2),
                            how="bin/verify_mutant.sh %s %s (git apply in the scratch worktree, cargo test --offline, the demonstration's own command; then reverted and the demonstration re-run)" % (wt, i)),
